@@ -91,10 +91,14 @@ def h_by_gene(ctx, chroms, first, filtered=False):
     cna = make_cna({"chromosome": chroms, "start": list(range(0, 100 * n, 100)), "end": list(range(100, 100 * n + 100, 100)), "gene": names, "log2": [0.0] * n})
     labels = list(range(n))
     if filtered:
-        # a filtered array: an extra leading row is dropped, the index keeps its gaps
-        cna = make_cna({"chromosome": [chroms[0]] + chroms, "start": [0] + list(range(100, 100 * n + 100, 100)), "end": [50] + list(range(200, 100 * n + 200, 100)), "gene": ["-"] + names, "log2": [0.0] * (n + 1)})
-        cna = cna[[False] + [True] * n]
-        labels = list(range(1, n + 1))
+        # a filtered array keeps the gaps in its row index: an extra row (the first one, or one
+        # in the middle of the first chromosome) is dropped after construction
+        k = 0 if filtered in (True, "lead") else 2
+        ch = chroms[:k] + [chroms[min(k, n - 1)] if k else chroms[0]] + chroms[k:]
+        nm = names[:k] + ["-"] + names[k:]
+        cna = make_cna({"chromosome": ch, "start": list(range(0, 100 * (n + 1), 100)), "end": list(range(50, 100 * (n + 1) + 50, 100)), "gene": nm, "log2": [0.0] * (n + 1)})
+        cna = cna[[i != k for i in range(n + 1)]]
+        labels = [i for i in range(n + 1) if i != k]
     got = [(g, list(sub.data.index)) for g, sub in cna.by_gene()]
     want = [(g, [labels[i] for i in idx]) for g, idx in expected_groups(chroms, names)]
     ctx.observe("groups", [[g, idx] for g, idx in got])
@@ -285,7 +289,7 @@ HARNESSES = [
     Harness(
         "by_gene",
         h_by_gene,
-        _cfgs([ONE5, TWO33], [ONE6, TWO43], [{"filtered": False}, {"filtered": True}]),
+        _cfgs([ONE5], [ONE6, TWO43], [{"filtered": False}, {"filtered": "mid"}, {"filtered": "lead", "_t": True}]) + _cfgs([TWO33], [], [{"filtered": False}, {"filtered": "lead"}, {"filtered": "mid", "_t": True}]),
         covers=["gene with interleaved antitarget", "trailing single bin", "two genes adjacent"],
         wall_s=240,
         thorough_wall_s=1500,
